@@ -159,8 +159,8 @@ func TestSeqSweep(t *testing.T) {
 	for ai, A := range all {
 		for variant := vk.Pick(1, 0); variant < vk.Pick(4, 6); variant++ {
 			large := variant >= 3
-			if large && !A.o.sized(A.c.Alg, A.c.Mode) {
-				continue
+			if large && (!A.o.sized(A.c.Alg, A.c.Mode) || !(A.okay || vk.Thorough())) {
+				continue // quick tier: the first call with a large message on its successful path only
 			}
 			idx++
 			if !vk.Mine(idx) {
